@@ -479,13 +479,15 @@ class Constraints:
         bool_eq = {
             f.name: f.expr
             for f in facts
-            if f.kind == "eq" and isinstance(f.expr, ast.Compare)
+            if f.kind == "eq" and isinstance(f.expr, (ast.Compare, ast.BoolOp, ast.UnaryOp))
         }
         for f in facts:
             if f.kind == "cond":
                 self._add_cond(f.expr, f.pol, repr(f))
                 if isinstance(f.expr, ast.Name) and f.expr.id in bool_eq:
-                    self._add_cond(bool_eq[f.expr.id], f.pol, f"{repr(f)} where {f.expr.id} = {unparse(bool_eq[f.expr.id])}")
+                    # a conjunction held true (a disjunction held false) gives each of its parts
+                    for sub in split_cond(bool_eq[f.expr.id], f.pol):
+                        self._add_cond(sub.expr, sub.pol, f"{repr(f)} where {f.expr.id} = {unparse(bool_eq[f.expr.id])}")
         # len(x) >= 0 for every len atom mentioned
         atoms = {a for lin, _ in self.ge for a in lin.terms}
         for a in atoms:
